@@ -163,6 +163,9 @@ def dilate(A, Bc=None, out=None, output=None):
     _verify_is_integer_type(A, 'dilate')
     Bc = get_structuring_elem(A,Bc)
     output = _get_output(A, out, 'dilate', output=output)
+    if np.may_share_memory(A, output):
+        # the kernel reads its input while it writes the output
+        A = A.copy()
     return _morph.dilate(A, Bc, output)
 
 def erode(A, Bc=None, out=None, output=None):
@@ -199,6 +202,9 @@ def erode(A, Bc=None, out=None, output=None):
     _verify_is_integer_type(A,'erode')
     Bc = get_structuring_elem(A,Bc)
     output = _get_output(A, out, 'erode', output=output)
+    if np.may_share_memory(A, output):
+        # the kernel reads its input while it writes the output
+        A = A.copy()
     return _morph.erode(A, Bc, output)
 
 
@@ -238,6 +244,9 @@ def cerode(f, g, Bc=None, out=None, output=None):
     _verify_is_integer_type(f, 'cerode')
     Bc = get_structuring_elem(f, Bc)
     out = _get_output(f, out, 'cerode', output=output)
+    if np.may_share_memory(g, out):
+        # `out` is about to be overwritten with the erosion; keep the condition
+        g = g.copy()
     f = _morph.erode(f, Bc, out)
     return np.maximum(f, g, out=f)
 
